@@ -204,6 +204,12 @@ def run_real(spec, steps, lib_callbacks=None, ckpt_path=None, crash_at=None, wat
     r.names = [n for n, _ in reached]
     r.params = [p for _, p in reached]
     r.theta0 = W.clone_state(r.params)
+    # learnable tensors reachable from validation conditions only: nothing may ever change them
+    tids = {id(p) for p in r.params}
+    vo = [(n, p) for n, p in W.reach_learnables(w.val) if id(p) not in tids]
+    r.val_only_names = [n for n, _ in vo]
+    r.val_only_params = [p for _, p in vo]
+    r.val_only_theta0 = W.clone_state(r.val_only_params)
     rec = Recorder(r.params, crash_at=crash_at, watch=watch, record_opt=record_opt)
     r.rec = rec
     r.trainer = None
@@ -227,6 +233,7 @@ def run_real(spec, steps, lib_callbacks=None, ckpt_path=None, crash_at=None, wat
             h.remove()
     r.global_step = int(trainer.global_step)
     r.final = W.clone_state(r.params)
+    r.val_only_final = W.clone_state(r.val_only_params)
     if probe is not None:
         r.probe_after = {k: v.detach().clone() for k, v in rec.probe.state_dict().items()}
     r.opt = trainer.optimizers[0] if trainer.optimizers else None
